@@ -1,3 +1,4 @@
+import OidcModel.Go
 /-
   Proof tactics for *characterisation lemmas* of translated Go functions (core Lean only).
 
@@ -11,13 +12,40 @@
   usage:  `unfold Gen.f <getters…>; go_leaf`      (add `Go.ok`, `Go.contains`, … to the unfold list as needed)
 -/
 
+/-! lemmas that make different spellings of the same Go idiom meet (a hand-written loop and `slices.Contains`, …); they are
+    NOT global simp lemmas (that would change the normal forms other proofs rely on): `go_char` hands them to `simp_all` -/
+
+theorem Go.any_beq_right {α : Type} [BEq α] [LawfulBEq α] (l : List α) (c : α) :
+    Go.any l (fun a => a == c) = l.contains c := by
+  unfold Go.any
+  rw [Bool.eq_iff_iff]
+  simp [List.any_eq_true, List.contains_iff_mem]
+
+theorem Go.any_beq_left {α : Type} [BEq α] [LawfulBEq α] (l : List α) (c : α) :
+    Go.any l (fun a => c == a) = l.contains c := by
+  unfold Go.any
+  rw [Bool.eq_iff_iff]
+  simp only [List.any_eq_true, List.contains_iff_mem, beq_iff_eq]
+  constructor
+  · rintro ⟨x, hx, rfl⟩; exact hx
+  · intro h; exact ⟨c, h, rfl⟩
+
+theorem Go.contains_eq {α : Type} [BEq α] (l : List α) (c : α) : Go.contains l c = l.contains c := rfl
+
 /-- split every `if` / `match` (after zeta-reducing `have`/`let` binders), then close each branch -/
 syntax "go_leaf" : tactic
 macro_rules
   | `(tactic| go_leaf) => `(tactic| (
       (try simp only [])
       (repeat' split)
-      all_goals (first | (simp_all; done) | (simp_all <;> omega) | grind)))
+      all_goals (first | (simp_all; done) | (simp_all <;> omega) | grind | (simp_all; grind))))
+
+/-- `go_unfold f g h`: unfold whichever of the listed definitions occur (unlike `unfold`, it does not fail when one of them
+    does not occur any more, e.g. because the Go code now reaches it through an extracted helper that factgen translated
+    as a `@[simp] def`) -/
+syntax "go_unfold" (ppSpace colGt ident)+ : tactic
+macro_rules
+  | `(tactic| go_unfold $ids*) => `(tactic| (try simp only [$[$ids:ident],*]))
 
 /-- variant with extra simp lemmas for the branch goals -/
 syntax "go_leaf" "[" Lean.Parser.Tactic.simpLemma,* "]" : tactic
@@ -25,4 +53,17 @@ macro_rules
   | `(tactic| go_leaf [$ls,*]) => `(tactic| (
       (try simp only [])
       (repeat' split)
-      all_goals (first | (simp_all [$ls,*]; done) | (simp_all [$ls,*] <;> omega) | grind)))
+      all_goals (first | (simp_all [$ls,*]; done) | (simp_all [$ls,*] <;> omega) | grind | (simp_all [$ls,*]; grind))))
+
+/-- `go_char f getter… helper…`: the whole characterisation-lemma script: unfold whichever of the listed definitions occur,
+    split, and close every branch with the same definitions available to `simp_all` (so that a definition that only
+    appears after an extracted `@[simp]` helper has been unfolded is still seen through) -/
+syntax "go_char" (ppSpace colGt ident)+ : tactic
+macro_rules
+  | `(tactic| go_char $ids*) => `(tactic| (
+      (try simp only [$[$ids:ident],*])
+      (repeat' split)
+      all_goals (first | (simp_all [$[$ids:ident],*]; done) | (simp_all [$[$ids:ident],*] <;> omega) | grind
+                       | (simp_all [$[$ids:ident],*]; grind)
+                       | (simp_all [Go.any_beq_right, Go.any_beq_left, Go.contains_eq, $[$ids:ident],*]; done)
+                       | (simp_all [Go.any_beq_right, Go.any_beq_left, Go.contains_eq, $[$ids:ident],*]; grind))))
